@@ -137,11 +137,35 @@ where
     }
 
     fn collect_item_keys(&self) -> HashMap<ast::ItemKey, ast::ResolvedItemKind> {
-        self.lalrpop_results
-            .values()
-            .flat_map(|fr| &fr.ast)
-            .map(|f| (f.get_key(), f.item.get_kind()))
-            .collect()
+        let mut keys = HashMap::new();
+        for entry in self.lalrpop_results.iter() {
+            if let Some(f) = &entry.1.ast {
+                let key = f.get_key();
+                let kind = f.item.get_kind();
+
+                // Note: several files may define the same item. Keep the kind with the lowest rank
+                // (and not the last one seen: the iteration order of the map is arbitrary)
+                let keep = match keys.get(&key) {
+                    Some(other) => kind_rank(&kind) < kind_rank(other),
+                    None => true,
+                };
+                if keep {
+                    keys.insert(key, kind);
+                }
+            }
+        }
+        keys
+    }
+}
+
+// Rank used to choose between the definitions of several files for the same item key
+fn kind_rank(kind: &ast::ResolvedItemKind) -> u8 {
+    match kind {
+        ast::ResolvedItemKind::Interface => 0,
+        ast::ResolvedItemKind::Parcelable => 1,
+        ast::ResolvedItemKind::Enum => 2,
+        ast::ResolvedItemKind::ForwardDeclaredParcelable => 3,
+        ast::ResolvedItemKind::UnknownImport => 4,
     }
 }
 
